@@ -498,12 +498,15 @@ end Expect
   Canonicalable by `marshal_tie` for every value json.Decoder can yield;
   Object.Sort = sortL (the comparator is the bytewise order of the keys, which
   on UTF-8 is the code-point order `ltS`); escapedUnit = the model
-  (`src_escapedUnit`); the two condition-controlled loops
+  (`src_escapedUnit`);
+  the two condition-controlled loops
   never run out of fuel.
-  NOT proved for all arguments (examples and a small exhaustive alphabet only:
-  `src_check_examples`, `src_checkEncoding_small`, `src_encodeString_rejects`):
-    ∀ raw, (Src.checkEncoding raw).isNone = C14n.checkEncoding raw
+  checkEncoding = the model for all texts (`src_checkEncoding`: nil error iff
+  utf8Valid and surrogatesPaired).
+  NOT proved for all arguments (examples only: `src_encodeString_rejects`): the
+  ERROR branch of encodeString,
     ∀ s with a non-scalar element, (Src.encodeString (utf8s s)).2.isSome
+  (json.Decoder never yields such a string; the model rejects it).
 -/
 namespace Src
 open GoblVerif.Generated GoblVerif.GoBytes GoblVerif.C14nSrc GoblVerif.GoSem
@@ -791,6 +794,37 @@ theorem src_escapedUnit (data : Bytes) :
         left; right; simpa using h0
       simp only [hg, if_true, GoSem.id_pure]
       rw [escapedUnit_guard _ _ _ _ _ _ _ (Or.inl h0)]
+
+/-! ### checkEncoding -/
+
+/-- checkEncoding as it is now = the model, for all texts: nil error exactly when the bytes are
+    valid UTF-8 and every `\uXXXX` escape of a surrogate is the high half of a pair -/
+theorem src_checkEncoding (data : Bytes) : (C14nSrc.checkEncoding data).isNone = C14n.checkEncoding data := by
+  unfold C14nSrc.checkEncoding C14n.checkEncoding
+  simp only [Id.run]
+  split
+  · rename_i hv
+    have : utf8Valid data = false := by simpa using hv
+    simp [this, GoStr.errNew, GoSem.id_pure]
+  rename_i hv
+  have hv' : utf8Valid data = true := by simpa using hv
+  rw [forIn_range_fuel _ (fun _ _ => rfl)]
+  generalize hr : forFuel _ data.length _ = r
+  have hr' : r = forFuel (chkStep C14nSrc.escapedUnit data) data.length (none, 0) := by
+    rw [← hr]; clear hr
+    refine forFuel_congr _ _ (fun st => ?_) _ _
+    simp only [chkStep, Id.run, GoSem.id_pure]
+  clear hr
+  have heu : ∀ b, C14nSrc.escapedUnit b = unitInt (C14n.escapedUnit b) := by
+    intro b; rw [src_escapedUnit]; cases C14n.escapedUnit b <;> rfl
+  have hl := chk_loop C14nSrc.escapedUnit heu data data [] 0 data.length (by simp) (by simp)
+  have h1 : r.1 = chkRes (surrogatesPaired 0 data) := by
+    rw [hr', ← hl]; simp
+  rcases r with ⟨r1, r2⟩
+  simp only at h1
+  subst h1
+  simp only [hv', Bool.true_and, pure_bind]
+  cases surrogatesPaired 0 data <;> simp [chkRes, GoStr.errNew, GoSem.id_pure]
 
 /-! ### Object.Sort -/
 
